@@ -1050,6 +1050,7 @@ func init() {
 				s := e.sym(rets[len(rets)-1].Results[0])
 				// … decided as a truth table over: the type is a named type; its object has a package; that package is
 				// wire (by import path, vendoring removed); its name is ProviderSet
+				sawWire := false
 				atom := func(e ast.Expr) (string, bool) {
 					e = ast.Unparen(e)
 					if v := ip.varOf(e); v != nil {
@@ -1060,6 +1061,7 @@ func init() {
 						}
 					}
 					if cl := ip.isCall(e, pathW+".isWireImport"); cl != nil {
+						sawWire = true
 						return "wire", true
 					}
 					if be, ok := e.(*ast.BinaryExpr); ok && (be.Op == token.EQL || be.Op == token.NEQ) {
@@ -1080,7 +1082,7 @@ func init() {
 						okDef = false
 					}
 				}
-				r.Check(okDef && strings.Contains(s, `isWireImport(`), "isProviderSetType/definition", ip.Decl.Pos(), "a type is a provider set iff it is the named type ProviderSet of the wire package (%s)", s)
+				r.Check(okDef && sawWire, "isProviderSetType/definition", ip.Decl.Pos(), "a type is a provider set iff it is the named type ProviderSet of the wire package (%s)", s)
 			}
 			// the packages loop skips only the wire package itself
 			okPk := false
